@@ -28,6 +28,8 @@ type cTable struct {
 	fks    map[string]*cFK
 	checks map[string]bool
 	rows   int
+	auto   int // next AUTO_INCREMENT value; 0 = the table has no such column
+	moved  bool // a column was inserted before others or dropped (positions shifted)
 }
 
 type cIdx struct {
@@ -49,7 +51,7 @@ type cCatalog struct {
 func (c *cCatalog) clone() *cCatalog {
 	n := &cCatalog{tables: map[string]*cTable{}, views: map[string]string{}, trigs: map[string]*cTrig{}, procs: map[string]string{}}
 	for k, t := range c.tables {
-		nt := &cTable{rows: t.rows, cols: append([]string(nil), t.cols...), idx: map[string]*cIdx{}, fks: map[string]*cFK{}, checks: map[string]bool{}}
+		nt := &cTable{rows: t.rows, auto: t.auto, moved: t.moved, cols: append([]string(nil), t.cols...), idx: map[string]*cIdx{}, fks: map[string]*cFK{}, checks: map[string]bool{}}
 		for a, b := range t.idx {
 			x := *b
 			nt.idx[a] = &x
@@ -115,6 +117,17 @@ func (c *cCatalog) probes() []cProbe {
 	}
 	add("is.tables", "SELECT table_name, CONCAT(table_type, '') FROM information_schema.tables WHERE table_schema = 'd'", tables, false)
 	add("is.views", "SELECT table_name FROM information_schema.views WHERE table_schema = 'd'", views, false)
+	// the AUTO_INCREMENT column: the table's own counter, NULL for a table without one
+	// (a counter still at 1 may be shown as 1 or as NULL)
+	var autos []string
+	for _, t := range sortedKeys(c.tables) {
+		v := "NULL"
+		if a := c.tables[t].auto; a > 1 {
+			v = fmt.Sprint(a)
+		}
+		autos = append(autos, "("+qs(t)+","+v+")")
+	}
+	add("is.tables.auto_increment", "SELECT table_name, IF(auto_increment = 1, NULL, auto_increment) FROM information_schema.tables WHERE table_schema = 'd' AND table_type = 'BASE TABLE'", autos, false)
 	add("show tables", "SHOW TABLES", showTables, false)
 	add("show full tables", "SHOW FULL TABLES", fullTables, false)
 	var cols, stats, tcons, rcons, ccons, kcu []string
@@ -264,6 +277,15 @@ func checkC43(env *kernel.Env) {
 				}
 				t := &cTable{cols: []string{"id", "a", "b"}, idx: map[string]*cIdx{}, fks: map[string]*cFK{}, checks: map[string]bool{}}
 				defs := []string{"id INT PRIMARY KEY", "a INT", "b VARCHAR(10)"}
+				topt := ""
+				if T.Bool(1, 3) {
+					defs[0] = "id INT PRIMARY KEY AUTO_INCREMENT"
+					t.auto = 1
+					if T.Bool(1, 2) {
+						t.auto = []int{5, 10, 40}[T.Draw(3)]
+						topt = fmt.Sprintf(" AUTO_INCREMENT = %d", t.auto)
+					}
+				}
 				if T.Bool(1, 3) {
 					in := fresh("uk")
 					t.idx[in] = &cIdx{"a", true}
@@ -279,7 +301,7 @@ func checkC43(env *kernel.Env) {
 					t.checks[cn] = true
 					defs = append(defs, fmt.Sprintf("CONSTRAINT %s CHECK (a > -100)", cn))
 				}
-				return &op{"create-table", fmt.Sprintf("CREATE TABLE %s (%s)", name, strings.Join(defs, ", ")), func(c *cCatalog) bool {
+				return &op{"create-table", fmt.Sprintf("CREATE TABLE %s (%s)%s", name, strings.Join(defs, ", "), topt), func(c *cCatalog) bool {
 					if _, ok := c.tables[name]; ok {
 						return false
 					}
@@ -359,6 +381,7 @@ func checkC43(env *kernel.Env) {
 						t.cols = append(t.cols, col)
 					} else {
 						t.cols = append(t.cols[:at], append([]string{col}, t.cols[at:]...)...)
+						t.moved = true
 					}
 					return true
 				}}
@@ -383,6 +406,7 @@ func checkC43(env *kernel.Env) {
 					for i, x := range t.cols {
 						if x == col {
 							t.cols = append(t.cols[:i], t.cols[i+1:]...)
+							t.moved = true
 							break
 						}
 					}
@@ -580,9 +604,17 @@ func checkC43(env *kernel.Env) {
 				if len(cat.tables[tn].fks) > 0 || len(cat.tables[tn].cols) != 3 {
 					continue
 				}
+				if cat.tables[tn].moved && len(cat.tables[tn].idx) > 0 {
+					// rows written through secondary indexes after columns changed position are
+					// C21's subject (known finding schema-change-with-secondary-index)
+					continue
+				}
 				n++
 				return &op{"insert", fmt.Sprintf("INSERT INTO %s VALUES (%d, %d, 'r%d')", tn, n, n, n), func(c *cCatalog) bool {
 					c.tables[tn].rows++
+					if t := c.tables[tn]; t.auto > 0 && n >= t.auto {
+						t.auto = n + 1
+					}
 					return true
 				}}
 			}
